@@ -1,4 +1,4 @@
-import MgpuModel.C19
+import MgpuModel.C19_Base
 /-! Helper lemmas for C19: the completion protocol of one controller, stage by stage. -/
 namespace C19
 
